@@ -310,19 +310,23 @@ ADDED3 = {
            'peer has already reset (shutdown() fails with ENOTCONN).',
     'C07': ' The indication must be complete at the moment it is queued for the user\'s thread (data set attached, file '
            'rewound): the queue stand-in snapshots the message inside put().',
-    'C13': ' Disconnection between any two local steps (after the provider has written g PDUs, g symbolic, close / reset); a '
+    'C13': ' The association ends (close / reset / abort / stop request) behind 1..100 indications nobody reads.'
+           ' Disconnection between any two local steps (after the provider has written g PDUs, g symbolic, close / reset); a '
            'stop request while the peer is silent (symbolic iteration and clock); through the public API over a real '
            'provider: a requested association whose peer goes silent in Sta5 / Sta6 / Sta7 - Association.kill() returns '
            '(liveness of the provider thread and bounded stop() polling are modelled).',
     'C14': ' Leaving a requested association while 1..200 indications are unread (symbolic selector): the peer still gets '
-           'the A-RELEASE-RQ / exactly one A-ABORT.',
-    'C15': ' The application handler may close the file it is handed (symbolic).',
+           'the A-RELEASE-RQ / exactly one A-ABORT. The octets of an abort issued locally (requester / acceptor, symbolic '
+           'reason) carry that source and reason.',
+    'C15': ' The application handler may close the file it is handed (symbolic); handler statuses include legal codes the '
+           'library has no table entry for.',
     'C16': ' The form in which the application yields each pending status (Status with / without response type, plain int, '
            'module constant) is a symbolic choice per match.',
     'C17': ' C-MOVE with the REAL storage user on the sub-association and the request\'s message id symbolic over the whole '
            '16-bit range: every C-STORE-RQ must be encodable and every request answered.',
     'C20': ' The accept loop of the serving entity (verify_request) admits a connection whose peer has sent 0..all octets of '
-           'its request and then stays silent without reading from it, blocking on it or changing its time-out.',
+           'its request and then stays silent without reading from it, blocking on it or changing its time-out. No requester '
+           'waits for its peer while holding the entity-wide configuration lock (lock stand-in).',
 }
 for _pid, _txt in ADDED2.items():
     ADDED[_pid] = ADDED.get(_pid, '') + _txt
